@@ -225,7 +225,8 @@ def _r1(ctx):
         dsub = C.flow_of(fd).subst(dcp)
         d_ok = pm.match("sum([M_x.latency_cp for M_x in %s.get_critical_path()])" % fd.params()[2], dsub) is not None
     cvcall = C.calls_to(fa.node, "combined_view")
-    t_ok = bool(tcp) and bool(cvcall) and U(cvcall[0].args[1]) == "%s.get_critical_path()" % fa.params()[2]
+    t_ok = bool(tcp) and bool(cvcall) and len(cvcall[0].args) > 1 and \
+        U(C.flow_of(fa).subst(cvcall[0].args[1])) == "%s.get_critical_path()" % fa.params()[2]
     pair("CP total / Summary.CriticalPath", t_ok and d_ok, cv.where(),
          "both must be sum(latency_cp) over get_critical_path() (text ok=%s, dict ok=%s)" % (t_ok, d_ok),
          recognised=dcp is not None and bool(cvcall) and (bool(tcp) or bool(pm.find("M_s = sum([M_x.M_a for M_x in %s])" % cv.params()[2], cv.node))))
@@ -254,7 +255,8 @@ def _r1(ctx):
          recognised=dl is not None and (bool(dls) or isinstance(dl, ast.Constant)))
     # both use the same dependency dict
     dd = pm.find("M_d = %s.get_loopcarried_dependencies()" % fd.params()[2], fd.node)
-    t_dd = bool(cvcall) and U(cvcall[0].args[2]) == "%s.get_loopcarried_dependencies()" % fa.params()[2]
+    t_dd = bool(cvcall) and len(cvcall[0].args) > 2 and \
+        U(C.flow_of(fa).subst(cvcall[0].args[2])) == "%s.get_loopcarried_dependencies()" % fa.params()[2]
     pair("LCD source / get_loopcarried_dependencies()", bool(dd) and t_dd, fa.where(),
          "text and dict must both start from get_loopcarried_dependencies()")
     # --- LCD list
@@ -271,7 +273,7 @@ def _r1(ctx):
         # an entry held in a local / other spellings of the member list: the rule does not follow them
         list_rec_unknown = not ok and ("['latency']" in body and "['dependencies']" in body)
     lcall = C.calls_to(fa.node, "loopcarried_dependencies")
-    ok = ok and bool(lcall) and U(lcall[0].args[0]) == "%s.get_loopcarried_dependencies()" % fa.params()[2]
+    ok = ok and bool(lcall) and bool(lcall[0].args) and U(C.flow_of(fa).subst(lcall[0].args[0])) == "%s.get_loopcarried_dependencies()" % fa.params()[2]
     # is the iteration domain all entries of the dict?  True / False (entries can collapse or be cut) / None (not understood)
     def domain(e, depth=0):
         while isinstance(e, ast.Call) and isinstance(e.func, ast.Name) and e.func.id in ("sorted", "list", "reversed", "tuple") and e.args:
